@@ -162,4 +162,64 @@ theorem putRep_store (r : Replica) (k : Key) (inp : Res Val) (k' : Key) : (putRe
     | _, _ => r.store k' := by
   unfold putRep; split <;> simp_all [store_write]
 
+/-! ## Frame of the calls: scripts, counters, stores, round -/
+
+theorem adv_bump (p : Pair) (s : Side) (m : Meth) : Adv p (p.setRep s ((p.rep s).bump m)) :=
+  Adv.setRep p s _ rfl (fun m' => le_cnt_bump _ m m')
+
+theorem getOn_adv (s : Side) (p : Pair) (k : Key) : Adv p (getOn s p k).1 := by
+  rw [getOn_fst]; exact adv_bump p s .get
+theorem getcOn_adv (s : Side) (p : Pair) (k : Key) : Adv p (getcOn s p k).1 := by
+  rw [getcOn_fst]; exact adv_bump p s .getc
+theorem fmOn_adv (s : Side) (p : Pair) (ks : List Key) : Adv p (fmOn s p ks).1 := by
+  rw [fmOn_fst]; exact adv_bump p s .fm
+theorem capsOn_adv (s : Side) (p : Pair) : Adv p (capsOn s p).1 := by
+  rw [capsOn_fst]; exact adv_bump p s .caps
+theorem putOn_adv (s : Side) (p : Pair) (k : Key) (inp : Res Val) : Adv p (putOn s p k inp).1 := by
+  rw [putOn_fst]
+  exact Adv.setRep p s _ (by simp) (fun m' => by rw [putRep_cnt]; exact le_cnt_bump _ .put m')
+
+theorem store_setRep_bump (p : Pair) (s t : Side) (m : Meth) :
+    ((p.setRep s ((p.rep s).bump m)).rep t).store = (p.rep t).store := by
+  by_cases h : t = s
+  · subst h; simp
+  · simp [rep_setRep_ne _ _ h]
+
+@[simp] theorem getOn_store (s t : Side) (p : Pair) (k : Key) : ((getOn s p k).1.rep t).store = (p.rep t).store := by
+  rw [getOn_fst]; exact store_setRep_bump p s t .get
+@[simp] theorem getcOn_store (s t : Side) (p : Pair) (k : Key) : ((getcOn s p k).1.rep t).store = (p.rep t).store := by
+  rw [getcOn_fst]; exact store_setRep_bump p s t .getc
+@[simp] theorem fmOn_store (s t : Side) (p : Pair) (ks : List Key) : ((fmOn s p ks).1.rep t).store = (p.rep t).store := by
+  rw [fmOn_fst]; exact store_setRep_bump p s t .fm
+@[simp] theorem capsOn_store (s t : Side) (p : Pair) : ((capsOn s p).1.rep t).store = (p.rep t).store := by
+  rw [capsOn_fst]; exact store_setRep_bump p s t .caps
+
+/-- `putOn` touches only the replica it is called on ... -/
+theorem putOn_store_ne (s t : Side) (p : Pair) (k : Key) (inp : Res Val) (h : t ≠ s) :
+    ((putOn s p k inp).1.rep t).store = (p.rep t).store := by
+  rw [putOn_fst, rep_setRep_ne _ _ h]
+
+/-- ... and there only key `k`, exactly when no fault fired and the input was readable. -/
+theorem putOn_store_same (s : Side) (p : Pair) (k : Key) (inp : Res Val) (k' : Key) :
+    ((putOn s p k inp).1.rep s).store k' =
+    match (p.rep s).faultAt .put, inp with
+    | none, .ok v => if k' = k then some v else (p.rep s).store k'
+    | _, _ => (p.rep s).store k' := by
+  rw [putOn_fst, rep_setRep_same, putRep_store]
+
+@[simp] theorem getOn_round (s : Side) (p : Pair) (k : Key) : (getOn s p k).1.round = p.round := by rw [getOn_fst]; rfl
+@[simp] theorem getcOn_round (s : Side) (p : Pair) (k : Key) : (getcOn s p k).1.round = p.round := by rw [getcOn_fst]; rfl
+@[simp] theorem fmOn_round (s : Side) (p : Pair) (ks : List Key) : (fmOn s p ks).1.round = p.round := by rw [fmOn_fst]; rfl
+@[simp] theorem capsOn_round (s : Side) (p : Pair) : (capsOn s p).1.round = p.round := by rw [capsOn_fst]; rfl
+@[simp] theorem putOn_round (s : Side) (p : Pair) (k : Key) (inp : Res Val) : (putOn s p k inp).1.round = p.round := by
+  rw [putOn_fst]; rfl
+
+/-- A replica's next fault is not affected by calls into the other replica or of another method. -/
+theorem faultAt_setRep_ne (p : Pair) {s t : Side} (r : Replica) (m : Meth) (h : t ≠ s) :
+    ((p.setRep s r).rep t).faultAt m = (p.rep t).faultAt m := by
+  rw [rep_setRep_ne _ _ h]
+
+theorem faultAt_bump_ne (r : Replica) {m m' : Meth} (h : m' ≠ m) : (r.bump m).faultAt m' = r.faultAt m' := by
+  simp [Replica.faultAt, cnt_bump, h]
+
 end BB.Mirrored
